@@ -18,7 +18,7 @@ def main(tier):
     footprint.ellipse_fraction(P, rep)
     footprint.plume_head(P, rep)
     dep.surface_pairing(P, rep)
-    rep.assumptions.append("correctness of the winding-number test itself (polygon_contains_point_implementation) is NOT decided: geometry over reals")
+    rep.assumptions.append("of the winding-number test (polygon_contains_point_implementation) the closed boundary rule and the sign / direction of the crossing count are decided; its exactness in floating-point arithmetic is NOT")
     # the answer does not depend on what was queried before (no cache that outlives a query: a necessary condition for a
     # statement about 'all worlds and all points', which includes a second world in the same process)
     pure.run(P, rep, pure.query_roots(P))
